@@ -71,6 +71,15 @@ type Exec struct {
 	stack     []*ssa.Function
 	quotSplits int
 	pcDirty   bool
+	radixes   map[string]*radix
+	radixSplits int
+	digitIdent int
+	divCache  map[string][2]Int
+	floorCache map[string]*Term
+	solBV     *Solver
+	solINT    *Solver
+	known     map[string]bool
+	refine    map[string][2]int64
 
 	globals   map[*ssa.Global]*Value
 	initDone  map[*ssa.Package]bool
@@ -125,6 +134,13 @@ func shortPath(f string) string {
 func (e *Exec) assertT(t *Term) {
 	e.pcDirty = true
 	e.sol.Send("(assert " + t.Name + ")")
+	e.known[t.Name] = true
+	if len(t.Name) > 5 && t.Name[:5] == "(not " {
+		e.known[t.Name[5:len(t.Name)-1]] = false
+	} else {
+		e.known["(not "+t.Name+")"] = false
+	}
+	e.learn(t)
 }
 
 func (e *Exec) assume(b Bool) {
@@ -150,6 +166,9 @@ func (e *Exec) feasible(t *Term) bool {
 func (e *Exec) branch(b Bool) bool {
 	if b.S == nil {
 		return b.C
+	}
+	if v, ok := e.known[b.S.Name]; ok {
+		return v
 	}
 	if e.pos < len(e.prefix) {
 		d := e.prefix[e.pos]
@@ -268,7 +287,7 @@ func (e *Exec) check(ok Bool, kind, label, msg string) {
 	}
 	nb := e.not(ok)
 	e.sol.Push()
-	e.assertT(nb.S)
+	e.sol.Send("(assert " + nb.S.Name + ")")
 	r := e.sol.Check()
 	if r == "sat" {
 		e.recordViolation(kind, label, msg)
@@ -733,7 +752,7 @@ func (e *Exec) loadSym(se symElem) Value {
 			break
 		}
 	}
-	lo, hi, ok := se.idx.ival()
+	lo, hi, ok := e.ival(se.idx)
 	if !allInt || !ok {
 		i := e.concretize(se.idx)
 		return copyVal(se.base[i])
@@ -1589,8 +1608,8 @@ var _ = math.MaxInt64
 // divSym: x / y and x % y with a symbolic divisor, by case-splitting the quotient (0 <= x, 0 < y required):
 // the candidates q = 0,1,2,... are tried in order with the linear condition x < (q+1)*y, (q+1)*y by repeated addition.
 func (e *Exec) divSym(op token.Token, x, y Int) (Int, bool) {
-	xl, _, xok := x.ival()
-	yl, yh, yok := y.ival()
+	xl, _, xok := e.ival(x)
+	yl, yh, yok := e.ival(y)
 	if !(xok && yok && xl >= 0 && yl > 0 && yh < 1<<55) {
 		return Int{}, false
 	}
